@@ -106,7 +106,8 @@ impl<'a, T: IteTable<BddPtr<'a>>> BddBuilder<'a> for RobddBuilder<'a, T> {
 //%% end
 
 //%% extract src/builder/bdd/robdd.rs :: impl<'a, T: IteTable<'a, BddPtr<'a>> + Default> BddBuilder<'a> for RobddBuilder<'a, T> :: fn ite_helper
-//%% @attr #[verifier::exec_allows_no_decreases_clause]
+//%% @spec
+        decreases height(f) + height(g) + height(h), // #TERM
 //%% @rewrite 1 /\n        self\.stats\.borrow_mut\(\)\.num_recursive_calls \+= 1;/ => 
 //%% @rewrite ?2 /self\.order\.borrow\(\)/ => self.order_ref()
 //%% @rewrite 2 /self\.apply_table\.borrow\(\)/ => self.apply_view()
@@ -178,9 +179,12 @@ impl<'a, T: IteTable<BddPtr<'a>>> RobddBuilder<'a, T> {
             ordered(r, self.order_view()),
             below(r, self.order_view(), self.order_view().pos(lbl)),
             canon(f) ==> canon(r), // #C02
+            // the cofactor is f itself or one of its children
+            height(r) <= height(f), (is_node(f) && node_of(f).var == lbl) ==> height(r) < height(f), // #TERM
 //%% @entry
         proof {
             lemma_neg_shape(self.order_view());
+            assert forall|p: BddPtr| height(#[trigger] p.neg_s()) == height(p) by { lemma_height_neg(p); }
             if is_node(f) && self.order_view().pos(lbl) == self.order_view().pos(node_of(f).var) {
                 lemma_pos_inj(self.order_view(), lbl, node_of(f).var);
             }
@@ -188,7 +192,6 @@ impl<'a, T: IteTable<BddPtr<'a>>> RobddBuilder<'a, T> {
 //%% end
 
 //%% extract src/builder/bdd/robdd.rs :: impl<'a, T: IteTable<'a, BddPtr<'a>> + Default> RobddBuilder<'a, T> :: fn cond_with_alloc
-//%% @attr #[verifier::exec_allows_no_decreases_clause]
 //%% @ret r
 //%% @rewrite 1 /\n        self\.stats\.borrow_mut\(\)\.num_recursive_calls \+= 1;/ => 
 //%% @rewrite ?1 /self\.order\.borrow\(\)/ => self.order_ref()
@@ -202,6 +205,7 @@ impl<'a, T: IteTable<BddPtr<'a>>> RobddBuilder<'a, T> {
             ordered(r, self.order_view()),
             top(r, self.order_view()) >= top(bdd, self.order_view()),
             canon(bdd) ==> canon(r), // #C02
+        decreases bdd, // #TERM
 //%% @entry
         proof {
             axiom_bddptr_eq(); axiom_bddptr_eq_equiv(); tr_all(); lemma_neg_shape(self.order_view());
@@ -268,7 +272,6 @@ impl<'a, T: IteTable<BddPtr<'a>>> RobddBuilder<'a, T> {
 
 //%% extract src/builder/bdd/robdd.rs :: impl<'a, T: IteTable<'a, BddPtr<'a>> + Default> RobddBuilder<'a, T> :: fn smooth_helper
 //%% @props C08
-//%% @attr #[verifier::exec_allows_no_decreases_clause]
 //%% @ret r
 //%% @rewrite ?4 /self\.order\.borrow\(\)/ => self.order_ref()
 //%% @rewrite 1 /\n        debug_assert!\(current <= total\);/ => 
@@ -283,6 +286,7 @@ impl<'a, T: IteTable<BddPtr<'a>>> RobddBuilder<'a, T> {
             smooth_from(r, current as int, total as int, self.order_view()),
             ordered(r, self.order_view()),
             top(r, self.order_view()) >= current,
+        decreases total - current, (if bdd is Compl { 1int } else { 0int }), // #TERM
 //%% @entry
         proof {
             reveal(VarOrder::wf);
